@@ -24,12 +24,16 @@ def code_of(path, V):
 
 
 class TableLM(MixableSequentialLanguageModel):
-    def __init__(self, V, tables, D=None, dtype=torch.double, strict=False):
+    def __init__(self, V, tables, D=None, dtype=torch.double, strict=False, inplace=False):
         """strict: never look at more of `hist` than the single token at idx - 1; the threaded state is
         trusted to describe everything before it (as a recurrent model would).  A stale or mis-routed
         state then yields the scores of a different path."""
         super().__init__(V)
         self.strict = strict
+        # inplace: the model writes its recurrent state INTO the dictionary it was handed (and returns that same
+        # dictionary), as a model caching hidden state may do; callers must therefore never share one state
+        # dictionary between independent searches / draws
+        self.inplace = inplace
         self.tables = tables
         self.D = D
         self.dtype = dtype
@@ -42,11 +46,15 @@ class TableLM(MixableSequentialLanguageModel):
         elem = prev.get("elem", torch.zeros(N, dtype=torch.long))
         if elem.numel() == 1 and N != 1:
             elem = elem.reshape(1).expand(N)  # an unbatched initial state conditions every sample alike
-        return {
+        new = {
             "elem": elem,
             "code": torch.zeros(N, dtype=torch.long),
             "len": torch.zeros(N, dtype=torch.long),
         }
+        if self.inplace:
+            prev.update(new)
+            return prev
+        return new
 
     def calc_idx_log_probs(self, hist, prev, idx):
         self.calls += 1
@@ -75,6 +83,9 @@ class TableLM(MixableSequentialLanguageModel):
             out[j] = torch.tensor(w, dtype=self.dtype).log()
             if self.D is not None:
                 out[j] -= torch.tensor(float(self.D), dtype=self.dtype).log()
+        if self.inplace:
+            prev["code"], prev["len"] = code, ln
+            return out, prev
         return out, {"elem": prev["elem"], "code": code, "len": ln}
 
     def extract_by_src(self, prev, src):
